@@ -1341,7 +1341,8 @@ func (g *mgen) precompileArgs() []mcase {
 		ac, av := big(1)
 		fc, fv := big(r.Intn(2))
 		zc, zv := b32()
-		return []mcase{g.cv(fmt.Sprintf("I_CrosschainArgs (CA_CrossChain %v %s %s %s)", re, ac, fc, zc), run("crosschain", "crossChain", new(crosschaintypes.CrossChainArgs), h.p.keys[0].Hex(), receipt, av, fv, zv, "memo"))}
+		ovf := new(bigIntT).Add(av.(*bigIntT), fv.(*bigIntT)).BitLen() > 256
+		return []mcase{g.cv(fmt.Sprintf("I_CrosschainArgs (CA_CrossChain %v %s %s %v %s)", re, ac, fc, ovf, zc), run("crosschain", "crossChain", new(crosschaintypes.CrossChainArgs), h.p.keys[0].Hex(), receipt, av, fv, zv, "memo"))}
 	case 3:
 		mc, mv := mn()
 		tc, tv := big(1)
@@ -1566,6 +1567,31 @@ func (h *harness) stageModel() {
 					h.rep.Count("model:" + c.obs.Class)
 					h.rep.Case(fmt.Sprintf("model|grid|MsgUpdateStore|%d|%s|%s", fi, rp.v, c.obs.Class), true)
 				}
+			}
+		}
+	}
+	// deterministic grid: crossChain amount / fee at the 256-bit boundary (CrossChainArgs.Validate, fb9127f)
+	{
+		g := &mgen{h: h, ok: 100}
+		mth := crosschaintypes.GetABI().Methods["crossChain"]
+		var tgt [32]byte
+		copy(tgt[:], "eth")
+		vals := []struct {
+			c string
+			v *bigIntT
+		}{{"BgZero", new(bigIntT)}, {"BgPos", new(bigIntT).SetInt64(1)}, {"BgPos", two255}, {"BgPos", two256m1}}
+		for _, a := range vals {
+			for _, f := range vals {
+				data, err := mth.Inputs.Pack(h.p.keys[0].Hex(), h.p.ethOK[0], a.v, f.v, tgt, "memo")
+				if err != nil {
+					continue
+				}
+				o := guard(func() error { return fxevmtypes.ParseMethodArgs(mth, new(crosschaintypes.CrossChainArgs), data) })
+				ovf := new(bigIntT).Add(a.v, f.v).BitLen() > 256
+				c := g.cv(fmt.Sprintf("I_CrosschainArgs (CA_CrossChain false %s %s %v false)", a.c, f.c, ovf), o)
+				items = append(items, c.coq)
+				h.rep.Count("model:" + c.obs.Class)
+				h.rep.Case(fmt.Sprintf("model|grid|CA_CrossChain|%s|%s|%s", short(a.v.String(), 6), short(f.v.String(), 6), c.obs.Class), true)
 			}
 		}
 	}
